@@ -524,7 +524,9 @@ func (p *prop) Generate(rng *core.Rand, tier string, emit func(string)) {
 	for _, m := range malformed {
 		emit(m)
 	}
-	g := &genCase{rng: rng, tier: tier}
+	// core.NewRand(seed) and core.NewRand(seed+1) are the same splitmix sequence one draw apart and
+	// re-synchronise after a few cases; forking through an output value gives unrelated streams.
+	g := &genCase{rng: rng.Fork().Fork(), tier: tier}
 	for i := 0; i < n; i++ {
 		emit(g.one())
 	}
